@@ -300,13 +300,22 @@ def ev_acq(case):
                 # objective, mpmath) is below 1e-9 of the gradient scale; -ln EI varies on the scale of the distance to
                 # the nearest noise-free data point, not of the length-scale
                 gscale = max(abs(float(v)) for v in gB)
+                vfloor = 4 * (C_EPS * EPS + C_JIT) * cond * S["var"]
+                trunc = None
                 for div in (8.0, 32.0, 128.0, 512.0):
                     st = R.stencil(ql, i, ls[i] / div, LEVELS)
                     dn = [s_[2] for s_ in st]
+                    if min(min(float(ref.var(xp)), float(ref.var(xm))) for xp, xm, _ in st) <= vfloor:
+                        trunc = None  # the stencil touches a noise-free data point, where sigma = 0 and the objective is singular
+                        continue
                     rr = R.richardson([(fref(xp), fref(xm)) for xp, xm, _ in st], [R.M(v) for v in dn])
                     trunc = abs(float(rr - gB[i]))
                     if trunc <= 1e-9 * gscale:
                         break
+                if trunc is None:
+                    skipped["difference stencil touches a noise-free data point (reference oracle only)"] = skipped.get("difference stencil touches a noise-free data point (reference oracle only)", 0) + 1
+                    cmp(f"optgrad/{kind}/reference", f"optgrad/{aname}/{mname}/{br}/reference", ogg[i], gB[i], tolGB[i], f"{aname}.opt_func_gradient vs gradient of the reference objective", component=i, **info)
+                    continue
                 vals = []
                 for xp, xm, _ in st:
                     with lib(f"{aname}.opt_func"):
@@ -670,17 +679,23 @@ def run(ck):
     scripts = ["0", "half", "1-", "cycle"]
     if quick:
         scripts = [scripts[seed % 4], scripts[(seed + 2) % 4]]
-    layouts = {1: [("inside", "col"), ("outside", "flat"), ("inside", "strided")], 2: [("inside", "own"), ("outside", "view")]}
-    if not quick:
-        layouts = {1: [(l, x) for l in ("inside", "outside") for x in ("col", "flat", "strided")], 2: [(l, x) for l in ("inside", "outside") for x in ("own", "view")]}
     hcases = []
     for d in (1, 2):
-        for acq, kappa in (("EI", None), ("UCB", 2.0), ("MV", None)) + (() if quick else (("UCB", 0.0),)):
-            for script, yerr in ([(scripts[0], False), (scripts[1], True)] if quick else [(sc, ye) for sc in scripts for ye in (False, True)]):
-                if True:
-                    for layout, xform in layouts[d]:
-                        for first in [None] + ACTIONS:
-                            hcases.append({"d": d, "acq": acq, "kappa": kappa, "script": script, "yerr": yerr, "layout": layout, "xform": xform, "first": first, "depth": 3})
+        if quick:
+            # a slice of the configuration product (thorough runs the whole product); every history of length <= 3 in each
+            combos = {
+                1: [(scripts[0], False, "inside", "col"), (scripts[1], True, "outside", "flat"), (scripts[0], True, "inside", "strided")],
+                2: [(scripts[0], False, "inside", "own"), (scripts[1], True, "outside", "view")],
+            }[d]
+            acqs = (("EI", None), ("UCB", 2.0), ("MV", None))
+        else:
+            xforms = ("col", "flat", "strided") if d == 1 else ("own", "view")
+            combos = [(sc, ye, la, xf) for sc in scripts for ye in (False, True) for la in ("inside", "outside") for xf in xforms]
+            acqs = (("EI", None), ("UCB", 2.0), ("MV", None), ("UCB", 0.0))
+        for acq, kappa in acqs:
+            for script, yerr, layout, xform in combos:
+                for first in [None] + ACTIONS:
+                    hcases.append({"d": d, "acq": acq, "kappa": kappa, "script": script, "yerr": yerr, "layout": layout, "xform": xform, "first": first, "depth": 3})
     res = ck.run_cases("history", hcases, chunk=1)
     ck.extra["history_search"] = {
         "configurations": len(hcases) // 4,
